@@ -16,6 +16,12 @@ func (r *Run) call(st *State, fr *Frame, x *ssa.Call, b *ssa.BasicBlock, idx int
 	com := x.Common()
 	te := fr.te
 	if bi, ok := com.Value.(*ssa.Builtin); ok {
+		if fr.depth == 0 {
+			if st.calls == nil {
+				st.calls = map[string]int{}
+			}
+			st.calls[bi.Name()]++
+		}
 		fr.regs[x] = r.builtin(st, fr, x, bi)
 		return true
 	}
@@ -506,6 +512,20 @@ func (r *Run) builtin(st *State, fr *Frame, x *ssa.Call, bi *ssa.Builtin) *Val {
 		ph := st.comp(pn, ArrSort(SInt, ArrSort(ks[0].Sort, SBool)))
 		st.heap[pn] = Store(ph, mv.L[0], Store(Select(ph, mv.L[0]), kv.L[0], False))
 		return &Val{T: x.Type()}
+	case "clear":
+		mv := arg(0)
+		if mt, ok := types.Unalias(te.apply(com.Args[0].Type())).Underlying().(*types.Map); ok {
+			ks := layoutTE(mt.Key(), te)
+			if len(ks) != 1 {
+				_, ks = compositeKey(&Val{T: mt.Key(), L: zeroVal(mt.Key(), te).L}, mt.Key(), te)
+			}
+			pn := "map:" + typeName(te.apply(com.Args[0].Type())) + "#present"
+			ph := st.comp(pn, ArrSort(SInt, ArrSort(ks[0].Sort, SBool)))
+			// no key is present any more
+			st.heap[pn] = Store(ph, mv.L[0], App("(as const "+string(ArrSort(ks[0].Sort, SBool))+")", ArrSort(ks[0].Sort, SBool), False))
+			return &Val{T: x.Type()}
+		}
+		r.unsup("clear of a non-map")
 	case "print", "println":
 		return &Val{T: x.Type()}
 	case "recover":
